@@ -37,6 +37,12 @@ func main() {
 			g := NewGen(*seed*1000003 + int64(i))
 			c := StartHistory(rec, g.Reset(fmt.Sprintf("random-%d-%d", *seed, i)))
 			for s := 0; s < *steps; s++ {
+				if *gen && i%2 == 0 && s == *steps*3/5 {
+					// half of the histories go on after a zero-height restart
+					Step(c, rec, Ev{Name: "PrepZeroHeight"})
+					Step(c, rec, Ev{Name: "Genesis"})
+					Step(c, rec, Ev{Name: "Restart"})
+				}
 				Step(c, rec, g.Next(c.Project()))
 				if s%40 == 39 {
 					Step(c, rec, Ev{Name: "Obs"})
